@@ -641,7 +641,8 @@ class Parser:
         for part in values:
             if isinstance(part, ast.Constant):
                 try:
-                    part.value = self._fstring_escape.sub(unescape, part.value)
+                    # source newlines are always '\n' inside a literal, whatever the file uses
+                    part.value = self._fstring_escape.sub(unescape, part.value.replace("\r\n", "\n"))
                 except SyntaxError as e:
                     self.raise_syntax_error_known_location(e.msg, part)
             else:
